@@ -1,7 +1,10 @@
 #!/usr/bin/env python3
 """Apply every behaviour-preserving variant to a scratch copy of /repo and require every check to stay silent
-(no violation key that is not already present on the unchanged tree).  -> /verif/variants/RESULTS.json"""
-import glob, json, os, shutil, subprocess, sys, tempfile
+(no violation key that is not already present on the unchanged tree).  -> /verif/variants/RESULTS.json
+
+  bin/variants-matrix.py [-j N] [name-regex]     with a regex only the matching variants are re-run and merged into RESULTS.json
+"""
+import glob, json, os, re, shutil, subprocess, sys, tempfile
 V = "/verif"
 sys.path.insert(0, V)
 import check
@@ -11,29 +14,70 @@ import importlib.util
 spec = importlib.util.spec_from_file_location("sm", V + "/bin/seeded-matrix.py")
 sm = importlib.util.module_from_spec(spec); spec.loader.exec_module(sm)
 
+
+def one_variant(args):
+    vf, base, k = args
+    os.environ["VFS_FACTS_TARGET"] = V + "/.cache/target-scratch" + ("-%d" % k if k else "")
+    name = os.path.basename(vf)
+    w = tempfile.mkdtemp(prefix="variant.")
+    try:
+        r = os.path.join(w, "r")
+        subprocess.run(["rsync", "-a", "--exclude", "target", "--exclude", ".git", "/repo/", r + "/"], check=True)
+        p = subprocess.run(["git", "apply", vf], cwd=r, capture_output=True, text=True)
+        if p.returncode != 0:
+            return name, {"error": "does not apply"}, "%-10s DOES NOT APPLY" % name
+        try:
+            fp = check.extract(r, "all")
+        except Exception as e:
+            return name, {"error": "extraction failed: %s" % e}, "%-10s EXTRACTION FAILED" % name
+        got = sm.run_all(Facts(fp), r)
+        sm.fresh_modules()
+        new = {k_: sorted(x for x in v if x not in base[k_]) for k_, v in got.items()}
+        new = {k_: v for k_, v in new.items() if v}
+        return name, {"silent": not new, "alarms": new}, \
+            "%-10s %s" % (name, "silent" if not new else "ALARMS: " + ", ".join("%s(%d)" % (k_, len(v)) for k_, v in new.items()))
+    finally:
+        shutil.rmtree(w, ignore_errors=True)
+
+
+def _worker(args):
+    import multiprocessing
+    ident = multiprocessing.current_process()._identity
+    return one_variant((args[0], args[1], ident[0] if ident else 0))
+
+
 def main():
+    argv = list(sys.argv[1:])
+    jobs = 1
+    if "-j" in argv:
+        i_ = argv.index("-j")
+        jobs = int(argv[i_ + 1])
+        del argv[i_:i_ + 2]
+    rx = re.compile(argv[0]) if argv else None
     base = sm.run_all(Facts(check.extract("/repo", "all")), "/repo")
     sm.fresh_modules()
-    os.environ["VFS_FACTS_TARGET"] = V + "/.cache/target-scratch"
+    files = [vf for vf in sorted(glob.glob(V + "/variants/v*.diff")) if not rx or rx.search(os.path.basename(vf)[:-5])]
     res = {}
-    for vf in sorted(glob.glob(V + "/variants/v*.diff")):
-        name = os.path.basename(vf)
-        w = tempfile.mkdtemp(prefix="variant.")
-        try:
-            r = os.path.join(w, "r")
-            subprocess.run(["rsync", "-a", "--exclude", "target", "--exclude", ".git", "/repo/", r + "/"], check=True)
-            p = subprocess.run(["git", "apply", vf], cwd=r, capture_output=True, text=True)
-            if p.returncode != 0:
-                res[name] = {"error": "does not apply"}; print(name, "DOES NOT APPLY"); continue
-            fp = check.extract(r, "all")
-            got = sm.run_all(Facts(fp), r)
-            sm.fresh_modules()
-            new = {k: sorted(x for x in v if x not in base[k]) for k, v in got.items()}
-            new = {k: v for k, v in new.items() if v}
-            res[name] = {"silent": not new, "alarms": new}
-            print("%-10s %s" % (name, "silent" if not new else "ALARMS: " + ", ".join("%s(%d)" % (k, len(v)) for k, v in new.items())))
-        finally:
-            shutil.rmtree(w, ignore_errors=True)
-    json.dump(res, open(V + "/variants/RESULTS.json", "w"), indent=1)
-    print("variants: %d  silent: %d" % (len(res), sum(1 for r in res.values() if r.get("silent"))))
-main()
+    if jobs > 1:
+        import multiprocessing
+        with multiprocessing.Pool(jobs) as pool:
+            for name, r, line in pool.imap_unordered(_worker, [(vf, base) for vf in files]):
+                res[name] = r
+                print(line, flush=True)
+    else:
+        for vf in files:
+            name, r, line = one_variant((vf, base, 0))
+            res[name] = r
+            print(line, flush=True)
+    out = V + "/variants/RESULTS.json"
+    old = {}
+    if rx and os.path.exists(out):
+        old = json.load(open(out))
+    old.update(res)
+    old = {k_: old[k_] for k_ in sorted(old) if os.path.exists(os.path.join(V, "variants", k_))}
+    json.dump(old, open(out, "w"), indent=1)
+    print("variants: %d  silent: %d" % (len(old), sum(1 for r in old.values() if r.get("silent"))))
+
+
+if __name__ == "__main__":
+    main()
